@@ -420,6 +420,55 @@ def regression_family():
     return out
 
 
+def jump_target_family():
+    """the emitter's peephole window must not reach across a jump target: one small program per (construct, scope)
+    with a store to a plain variable x as the last operation before a jump target and a read (or read-modify-write)
+    of the same x as the first operation behind it, every path into the target taken at run time
+    (seeded change C03-ind-2: `ProcessContinueJumpLocations` without `ClearPrevOpcode()`)"""
+    out = []
+    I = ("var", "local", "i")
+    for scope in ("local", "group", "level", "game", "parm"):
+        X = ("var", scope, "x")
+        pr = lambda tag: ("print", True, [("str", tag), X, I])
+        init = [("label", "main", []), ("assign", X, ("int", 0)), ("assign", I, ("int", 0))]
+        # continue target in front of a do/while condition that starts by reading x
+        out.append(init + [("dowhile", [("incr", I), ("ite", ("bin", "eq", I, ("int", 2)), [("cont",)], []), ("assign", X, I)],
+                            ("bin", "lt", X, ("int", 4))), pr("dowhile"), ("end", X)])
+        # continue target in front of a for increment that reads x (x++, x += 1, x = x + 1 are layouts of one tree)
+        out.append(init + [("for", [("assign", X, ("int", 0))], ("bin", "lt", X, ("int", 6)), [("incr", X)],
+                            [("incr", I), ("ite", ("bin", "eq", X, ("int", 2)), [("cont",)], []), ("assign", X, ("bin", "add", X, ("int", 0)))]),
+                           pr("for"), ("end", X)])
+        # continue target in front of a while condition; the loop's exit (break target) followed by a read of x
+        out.append(init + [("while", ("bin", "lt", X, ("int", 5)),
+                            [("incr", I), ("ite", ("bin", "gt", I, ("int", 8)), [("brk",)], []),
+                             ("ite", ("bin", "eq", I, ("int", 2)), [("assign", X, ("int", 3)), ("cont",)], []), ("assign", X, ("bin", "add", X, ("int", 1)))]),
+                           ("assign", ("var", "level", "y"), X), pr("while"), ("end", X)])
+        # end of an if without else / join of if-else, x stored on one or both paths and read at once behind
+        out.append(init + [("for", [("assign", I, ("int", 0))], ("bin", "lt", I, ("int", 3)), [("incr", I)],
+                            [("ite", ("bin", "eq", I, ("int", 1)), [("assign", X, I)], []), ("assign", ("var", "level", "y"), X), pr("if"),
+                             ("ite", ("bin", "eq", I, ("int", 2)), [("assign", X, ("int", 7))], [("assign", X, ("int", 9))]), ("incr", X), pr("ifelse")]),
+                           ("end", X)])
+        # case labels and the end of a switch
+        out.append(init + [("for", [("assign", I, ("int", 0))], ("bin", "lt", I, ("int", 4)), [("incr", I)],
+                            [("switch", I, [("case", "0"), ("assign", X, ("int", 5)), ("case", "1"), ("incr", X), ("brk",), ("case", "2"), ("assign", X, I),
+                                            ("case", "default"), ("opassign", "add", X, ("int", 10))]),
+                             ("assign", ("var", "level", "y"), X), pr("switch")]),
+                           ("end", X)])
+        # short-circuit operators: the skipped right operand ends in a read of x, x is read again behind the join
+        out.append(init + [("for", [("assign", I, ("int", 0))], ("bin", "lt", I, ("int", 3)), [("incr", I)],
+                            [("assign", X, I), ("assign", ("var", "level", "b"), ("land", X, ("bin", "lt", X, ("int", 2)))),
+                             ("assign", ("var", "level", "c"), ("lor", ("bin", "eq", X, ("int", 1)), X)), pr("logic"),
+                             ("print", True, [("var", "level", "b"), ("var", "level", "c")])]),
+                           ("end", X)])
+        # try / catch: the join behind the catch block
+        out.append(init + [("for", [("assign", I, ("int", 0))], ("bin", "lt", I, ("int", 3)), [("incr", I)],
+                            [("try", [("ite", ("bin", "eq", I, ("int", 1)), [("throw", "oops", [])], []), ("assign", X, I)],
+                              [("label", "oops", []), ("assign", X, ("int", 40))]), ("incr", X), pr("try")]),
+                           ("end", X)])
+    return [{"prog": g, "label": "main", "args": [], "consts": {}} for g in out]
+
+
+
 def case_label_family():
     """case labels are integer literals like any other: values beyond 31 / 32 bits must select their own case
     (one small program per value, so that a failure names the value)"""
@@ -506,6 +555,8 @@ def check(ctx):
         fam.append(add("literals:%d" % i, g, rng, 6))
     for i, g in enumerate(case_label_family()):
         fam.append(add("caselabels:%d" % i, g, rng, 3))
+    for i, g in enumerate(jump_target_family()):
+        fam.append(add("jumptargets:%d" % i, g, rng, 3))
     for i, g in enumerate(operator_matrix(rng)):
         fam.append(add("opmatrix:%d" % i, g, rng, 4))
     for i in range(0, len(fam), 50):
